@@ -456,10 +456,9 @@ Proof.
           + assert (g0 = g) by congruence. subst g0. split; [exact Hgo|].
             intros x Hx. rewrite Hx. simpl. apply in_or_app. right. left. reflexivity.
           + eapply (stages_done_mono (outs s) (outs s) (d_rep (dk s)) _ r p);
-              [apply incl_refl|exact Hrp| | |].
+              [apply incl_refl|exact Hrp| | |exact Hn0].
             * eapply (i_disk sc s I); eauto.
             * lia.
-            * exact Hn0.
         - rewrite upd_other in H by auto.
           eapply stages_done_mono; [apply incl_refl|exact Hrp|]. eapply (i_disk sc s I); eauto. }
       constructor; simpl.
@@ -506,7 +505,8 @@ Proof.
         apply con_done_mono; auto.
       * intros Hp. contradiction.
       * intros Hne. destruct (i_fin sc s I Hne) as (H1 & H2 & H3 & H4).
-        split; auto. split; auto. split; auto. apply in_or_app. left. exact H3.
+        split; [exact H1|]. split; [exact H2|]. split; [|exact H4].
+        apply in_or_app. left. exact H3.
       * rewrite Hnf. discriminate.
       * intros H. apply A_mono. apply (i_A sc s I H).
       * intros H. destruct (i_B sc s I H) as (H1 & H2 & H3).
@@ -545,6 +545,180 @@ Proof.
     + apply (i_trig sc s I).
     + intros _. apply (i_closed sc s I Hnf).
     + apply (i_mclose sc s I).
+Qed.
+
+
+Lemma inv_anchor : forall s, Inv s -> Inv (anchor_step s).
+Proof.
+  intros s I. unfold anchor_step. destruct (m_anchor (mm s)); auto.
+  destruct I. constructor; simpl; auto.
+Qed.
+
+Lemma inv_fin : forall s, Inv s -> Inv (fin_step s).
+Proof.
+  intros s I. unfold fin_step.
+  destruct (m_fin (mm s)) as [[|[|n]]|] eqn:Em; auto.
+  - (* MarkChanFullyClosed *)
+    assert (Hne : m_fin (mm s) <> None) by congruence.
+    destruct (i_fin sc s I Hne) as (Hpc & Hst & Hno & _).
+    destruct (i_fullph sc s I (or_introl Hst)) as [Hco Hcon].
+    constructor; simpl.
+    + discriminate.
+    + intros; discriminate.
+    + apply (i_disk sc s I).
+    + apply (i_keys sc s I).
+    + unfold inserted; simpl. intros [H|[t H]]; [congruence|discriminate].
+    + intros _. split; [exact Hco|exact Hcon].
+    + intros _. split; [reflexivity|]. split; [exact Hst|]. split; [exact Hno|reflexivity].
+    + intros _. split; [exact Hco|]. split; [exact Hno|]. split; [exact Hcon|].
+      split; [reflexivity|]. split; [reflexivity|].
+      destruct (d_full (dk s)) eqn:Ef.
+      * apply (i_full sc s I Ef).
+      * left. rewrite (i_state sc s I Ef). exact Hst.
+    + intros _. apply Hco.
+    + intros [t H]; discriminate.
+    + intros [t [H|H]]; discriminate.
+    + discriminate.
+    + discriminate.
+    + intros; discriminate.
+  - (* Stop; WipeHistory *)
+    assert (Hne : m_fin (mm s) <> None) by congruence.
+    destruct (i_fin sc s I Hne) as (Hpc & Hst & Hno & Hfull).
+    pose proof (Hfull 0 Em) as Ef.
+    destruct (i_full sc s I Ef) as (Hco & _).
+    constructor; simpl.
+    + rewrite Ef; discriminate.
+    + intros; discriminate.
+    + intros; discriminate.
+    + intros; discriminate.
+    + unfold inserted; simpl. intros [H|[t H]]; [congruence|discriminate].
+    + intros _. split; [exact Hco|reflexivity].
+    + intros H; exfalso; apply H; reflexivity.
+    + intros _. split; [exact Hco|]. split; [exact Hno|]. split; [reflexivity|].
+      split; [reflexivity|]. split; [reflexivity|]. right. reflexivity.
+    + intros _. apply Hco.
+    + intros [t H]; discriminate.
+    + intros [t [H|H]]; discriminate.
+    + discriminate.
+    + rewrite Ef; discriminate.
+    + intros; discriminate.
+Qed.
+
+Lemma inv_crash : forall s, Inv s -> Inv (step sc s ECrash).
+Proof.
+  intros s I. simpl. unfold restart. destruct (d_full (dk s)) eqn:Ef.
+  - destruct (i_full sc s I Ef) as (Hco & Hno & Hcon & Hpc & Hres & Hst).
+    constructor; simpl.
+    + rewrite Ef; discriminate.
+    + intros; discriminate.
+    + apply (i_disk sc s I).
+    + apply (i_keys sc s I).
+    + intros _. destruct Hco as (H1 & H2 & H3). split; [exact H1|]. split; [exact H2|].
+      unfold RestartProofs.con_done. simpl. intros r Hin. rewrite Hcon. apply H3. exact Hin.
+    + intros _. split; [exact Hco|exact Hcon].
+    + intros H; exfalso; apply H; reflexivity.
+    + intros _. split; [exact Hco|]. split; [exact Hno|]. split; [exact Hcon|].
+      split; [reflexivity|]. split; [reflexivity|exact Hst].
+    + intros _. apply Hco.
+    + intros [t H]; discriminate.
+    + intros [t [H|H]]; discriminate.
+    + discriminate.
+    + rewrite Ef; discriminate.
+    + intros; discriminate.
+  - pose proof (i_state sc s I Ef) as Hs.
+    constructor; simpl.
+    + reflexivity.
+    + intros; discriminate.
+    + apply (i_disk sc s I).
+    + apply (i_keys sc s I).
+    + unfold inserted; simpl. intros [H|[t H]]; [|discriminate].
+      apply (i_ins sc s I). left. congruence.
+    + unfold fullph; simpl. intros [H|[t H]]; [|discriminate].
+      apply (i_fullph sc s I). left. congruence.
+    + intros H; exfalso; apply H; reflexivity.
+    + rewrite Ef; discriminate.
+    + intros [H|(a & t & H)]; [|discriminate]. apply (i_A sc s I). left. congruence.
+    + intros [t H]; discriminate.
+    + intros [t [H|H]]; discriminate.
+    + destruct (d_closed (dk s) && early (d_state (dk s))) eqn:E; [|discriminate].
+      intros _. apply andb_true_iff in E. apply E.
+    + intros _. apply (i_closed sc s I Ef).
+    + intros; discriminate.
+Qed.
+
+Lemma inv_step : forall s e, Inv s -> Inv (step sc s e).
+Proof.
+  intros s [[|k| |]|] I.
+  - apply inv_main; auto.
+  - apply inv_res; auto.
+  - apply inv_anchor; auto.
+  - apply inv_fin; auto.
+  - apply inv_crash; auto.
+Qed.
+
+Lemma inv_run : forall h, Inv (run sc h).
+Proof.
+  intros h. apply (reach_ind sc Inv).
+  - apply inv_init.
+  - intros; apply inv_step; auto.
+  - exists h; reflexivity.
+Qed.
+
+(* every report on disk is one of the uninterrupted run *)
+Lemma reps_sound : forall h x, In x (d_rep (dk (run sc h))) -> In x (resolver_reps sc).
+Proof.
+  intros h. apply (reach_ind sc (fun s => forall x, In x (d_rep (dk s)) -> In x (resolver_reps sc))).
+  - intros x [].
+  - intros s e IH x. destruct e as [[|k| |]|]; simpl.
+    + unfold main_step.
+      destruct (m_pc (mm s)) as [| |i|t r|a t|t|t|t]; simpl; auto.
+      * repeat match goal with |- context [if ?b then _ else _] => destruct b; simpl; auto end.
+        destruct (m_sigs (mm s)); simpl; auto.
+      * destruct i as [|[|i]]; simpl; auto.
+      * destruct (m_state (mm s)); destruct t; simpl; auto;
+          repeat match goal with |- context [if ?b then _ else _] => destruct b; simpl; auto end.
+    + unfold res_step.
+      destruct (m_res (mm s) k) as [[p e]|]; auto.
+      destruct (find_spec sc k) as [r|] eqn:Hf; auto.
+      destruct (nth_error (r_stages r) p) as [g|] eqn:Hn; simpl; auto.
+      destruct e; simpl; auto.
+      unfold add_rep. destruct (s_rep g) as [y|] eqn:Ey; auto.
+      intros Hin. apply in_app_or in Hin. destruct Hin as [Hin|[<-|[]]]; auto.
+      apply find_spec_in in Hf. destruct Hf as [Hr _].
+      unfold resolver_reps. apply in_flat_map. exists r. split; [exact Hr|].
+      apply in_flat_map. exists g. split; [eapply nth_error_In; eauto|].
+      rewrite Ey. left. reflexivity.
+    + unfold anchor_step. destruct (m_anchor (mm s)); auto.
+    + unfold fin_step. destruct (m_fin (mm s)) as [[|[|n]]|]; simpl; auto.
+    + auto.
+  - exists h; reflexivity.
+Qed.
+
+(* the channel is marked fully resolved => everything the uninterrupted run
+   delivers has been delivered *)
+Theorem terminal_complete : forall h, terminal (run sc h) = true ->
+  (forall o, In o (expected_outs sc) -> In o (outs (run sc h)))
+  /\ (forall x, In x (resolver_reps sc) -> In x (d_rep (dk (run sc h)))).
+Proof.
+  intros h Ht. unfold terminal in Ht.
+  destruct (i_full sc _ (inv_run h) Ht) as ((HA & HB & HD) & Hno & _).
+  split.
+  - intros o Ho. unfold expected_outs in Ho.
+    apply in_app_or in Ho. destruct Ho as [Ho|Ho]; [apply HA; exact Ho|].
+    apply in_app_or in Ho. destruct Ho as [Ho|Ho]; [apply HB; exact Ho|].
+    apply in_app_or in Ho. destruct Ho as [Ho|Ho].
+    + unfold resolver_outs in Ho. apply in_flat_map in Ho. destruct Ho as (r & Hr & Ho).
+      apply in_flat_map in Ho. destruct Ho as (g & Hg & Ho).
+      apply In_nth_error in Hg. destruct Hg as [j Hj].
+      assert (Hlt : j < length (r_stages r)) by (apply nth_error_Some; congruence).
+      destruct (HD r Hr j g Hlt Hj) as [H1 _]. apply H1. exact Ho.
+    + destruct Ho as [<-|[]]. exact Hno.
+  - intros x Hx. unfold resolver_reps in Hx. apply in_flat_map in Hx. destruct Hx as (r & Hr & Hx).
+    apply in_flat_map in Hx. destruct Hx as (g & Hg & Hx).
+    apply In_nth_error in Hg. destruct Hg as [j Hj].
+    assert (Hlt : j < length (r_stages r)) by (apply nth_error_Some; congruence).
+    destruct (HD r Hr j g Hlt Hj) as [_ H2]. apply H2.
+    destruct (s_rep g) as [y|]; [|contradiction]. destruct Hx as [<-|[]]. reflexivity.
 Qed.
 
 End InvProofs.
